@@ -55,6 +55,10 @@ class Monitor(object):
                 last = self.last_check.get((lt.id, id(res)))
                 when = "stale-readiness-check" if (last is None or last[1] is False) else "ready-was-observed"
                 sig = "stall:waiter-blocked-in=%s:%s" % (lt.block_kind, when)
+                woke = getattr(lt, "wakes", {}).get("cond.wait", -1)
+                if last is not None and woke > last[0]:
+                    # it slept on the condition, was woken, and went on to wait again WITHOUT looking at its result
+                    sig += ":woken-and-did-not-look"
                 if lt.block_kind != "stream.poll.wait":
                     # waiting for the receive lock: who holds it?  (a waiter parked behind another stalled
                     # waiter is a cascade of the same defect; parked while the lock is free is a lost notification)
